@@ -162,12 +162,22 @@ class Facts:
     def __init__(self, facts_dir):
         self.dir = facts_dir
         self.crates = {}
+        texts = {}
         for name in CRATES:
             p = os.path.join(facts_dir, name + ".json")
             if not os.path.exists(p):
                 raise RuntimeError("ANALYSIS-ERROR: fact file missing for crate %s (%s)" % (name, p))
             with open(p) as fh:
-                self.crates[name] = Crate(json.load(fh))
+                texts[name] = fh.read()
+        raw = {name: json.loads(t) for name, t in texts.items()}
+        # moved / renamed types, constants and free functions are rewritten to the paths the rules know (engine/aliases.py)
+        from . import aliases as _aliases
+        self.aliases = _aliases.compute(raw)
+        if self.aliases:
+            texts = _aliases.apply(texts, self.aliases)
+            raw = {name: json.loads(t) for name, t in texts.items()}
+        for name in CRATES:
+            self.crates[name] = Crate(raw[name])
         self.fns = []
         self.by_path = {}
         for c in self.crates.values():
